@@ -130,8 +130,7 @@ class Scanner:
     #
     def scan_verb(self, latex, start):
         def verb_err():
-            return utils.latex_error('bad \\verb argument',
-                                        start, latex, self.parms)[0]
+            return self.error_token('bad \\verb argument', start, latex)
         start_arg = start + len('\\verb')
         if start_arg >= self.max_pos:
             return verb_err()
@@ -143,6 +142,14 @@ class Scanner:
             return verb_err()
         self.pos += 1
         return defs.VerbatimToken(start_arg, latex[start_arg:self.pos-1])
+
+    #   the scanner has to return a single token:
+    #   join the possibly split error mark, pinned to the error position
+    #
+    def error_token(self, err, start, latex):
+        toks = utils.latex_error(err, start, latex, self.parms)
+        return defs.TextToken(start, ''.join(t.txt for t in toks),
+                                                    pos_fix=True)
 
     #   scan \begin{verbatim} ... \end{verbatim}
     #
@@ -157,8 +164,7 @@ class Scanner:
         pos += len('{verbatim}')
         end = latex.find('\\end{verbatim}', pos)
         if end < 0:
-            return utils.latex_error('missing end of verbatim',
-                                            start, latex, self.parms)[0]
+            return self.error_token('missing end of verbatim', start, latex)
         self.pos = end + len('\\end{verbatim}')
         return defs.VerbatimToken(pos, latex[pos:end], environ=True)
 
